@@ -88,6 +88,9 @@ type Genesis struct {
 	VotingPeriod time.Duration
 	// Delegations from arbitrary accounts to the genesis validator.
 	Delegations map[string]sdk.Int // bech32 address -> amount
+	// UnbondingTime of x/staking (default: the SDK's three weeks), so that an undelegation can
+	// complete inside a trace.
+	UnbondingTime time.Duration
 	// NoFeeSweep makes SDK x/distribution inert is not possible; see FullBlock docs.
 }
 
@@ -177,6 +180,9 @@ func BuildGenesis(g Genesis) []byte {
 		Commission: stakingtypes.NewCommission(sdk.ZeroDec(), sdk.ZeroDec(), sdk.ZeroDec()), MinSelfDelegation: sdk.ZeroInt(),
 	}
 	sp := stakingtypes.DefaultParams()
+	if g.UnbondingTime > 0 {
+		sp.UnbondingTime = g.UnbondingTime
+	}
 	sp.BondDenom = Denom
 	gs[stakingtypes.ModuleName] = cdc.MustMarshalJSON(stakingtypes.NewGenesisState(sp, []stakingtypes.Validator{validator}, delegations))
 	bals = append(bals, banktypes.Balance{Address: ModAddr(stakingtypes.BondedPoolName).String(), Coins: sdk.NewCoins(sdk.NewCoin(Denom, totalBonded))})
